@@ -15,6 +15,12 @@ package main
 //   local            a local variable / an object allocated in the same function (not listed, counted)
 //   param, unknown   a location reached through a parameter or a call result of non-struct type
 //
+// Writes made *for* the repository by library code are listed too (how = "call <method>"): a call of a
+// non-repository method with a pointer receiver whose receiver is the address of an object stored by value
+// in a captured variable, a package-level variable or a field of a repository struct (a sync.Map, a
+// sync.Mutex, a sync.Once, an atomic.Value, a bytes.Buffer … kept in shared state is mutable shared state,
+// whatever the library does to stay race-free).
+//
 // The classification policy (which types are per-run state, which fields are the guarded caches)
 // is *not* here: it is in lean/Rg/Spec/C08.lean and is applied by a `decide` obligation.
 
@@ -236,6 +242,39 @@ func (w *writeExtract) add(f *ssa.Function, in ssa.Instruction, how string, o wO
 	w.sites = append(w.sites, s)
 }
 
+// sharedObject: v is the address of an object that lives by value in a captured variable, a package-level
+// variable or a field of a repository struct (not in an object allocated by this function).
+func (w *writeExtract) sharedObject(v ssa.Value) (wOwner, bool) {
+	switch v := v.(type) {
+	case *ssa.FreeVar:
+		return wOwner{kind: "captured", typ: shortFn(v.Parent().Parent()), field: v.Name()}, true
+	case *ssa.Global:
+		if v.Pkg != nil && inRepo(v.Pkg.Pkg.Path()) {
+			return wOwner{kind: "global", typ: shortPkg(v.Pkg.Pkg), field: v.Name()}, true
+		}
+	case *ssa.FieldAddr:
+		if rootIsAlloc(v.X) {
+			return wOwner{}, false
+		}
+		if nm := w.namedStruct(v.X.Type()); nm != "" {
+			if n, ok := types.Unalias(derefType(v.X.Type())).(*types.Named); ok && n.Obj().Pkg() != nil && inRepo(n.Obj().Pkg().Path()) {
+				return wOwner{kind: "field", typ: nm, field: structOf(v.X.Type()).Field(v.Field).Name()}, true
+			}
+		}
+	}
+	return wOwner{}, false
+}
+
+func derefType(t types.Type) types.Type {
+	for {
+		pt, ok := types.Unalias(t).(*types.Pointer)
+		if !ok {
+			return t
+		}
+		t = pt.Elem()
+	}
+}
+
 func (w *writeExtract) scan(f *ssa.Function) {
 	w.nFuncs++
 	for _, b := range f.Blocks {
@@ -258,6 +297,13 @@ func (w *writeExtract) scan(f *ssa.Function) {
 						w.add(f, in, "append", w.ownerOfValue(c.Args[0], 0))
 					case "copy", "delete", "clear":
 						w.add(f, in, bi.Name(), w.ownerOfValue(c.Args[0], 0))
+					}
+				} else if callee := c.StaticCallee(); callee != nil && !w.p.isRepoFn(callee) && callee.Signature.Recv() != nil && len(c.Args) > 0 {
+					// a library method with a pointer receiver, called on an object kept by value in shared state
+					if _, ptr := types.Unalias(callee.Signature.Recv().Type()).(*types.Pointer); ptr {
+						if o, ok := w.sharedObject(c.Args[0]); ok {
+							w.add(f, in, "call "+shortFn(callee), o)
+						}
 					}
 				}
 			}
